@@ -27,7 +27,10 @@ THEOREMS = [
     "BeyondVerif.C19.lambert_fg",
     "BeyondVerif.C19.lambert_fg_universal",
     "BeyondVerif.C19.lambert_scan_exit",
+    "BeyondVerif.C19.lamStep_cases",
     "BeyondVerif.C19.lambert_newton_exit",
+    "BeyondVerif.C19.lamStep_in_bracket",
+    "BeyondVerif.C19.lambert_newton_stays_in_bracket",
     "BeyondVerif.C19.lambert_newton_no_break",
     "BeyondVerif.C19.lambert_returns",
     "BeyondVerif.C19.stumpff_identity",
@@ -36,6 +39,7 @@ THEOREMS = [
     "BeyondVerif.C19.lambert_A_sq",
     "BeyondVerif.C19.lambert_solves_universal_kepler",
     "BeyondVerif.C19.lambert_solves_universal_kepler_dtheta",
+    "BeyondVerif.C19.beta_clip_in_domain",
     "BeyondVerif.C19.beta_arg_in_domain",
     "BeyondVerif.C19.beta_range",
     "BeyondVerif.C19.beta_is_elevation",
@@ -50,18 +54,18 @@ LEVEL_TEXT = ("Lean theorems over R about formulas translated from the Python so
               "Lambert loops, the Walker generators, beta and bplane that are tied to the code by a differential correspondence run: LTAN<->RAAN are exact inverses modulo "
               "day / 2 pi for any sun angle; Walker fleets have t satellites, evenly spaced planes, phasing 2 pi f / t; sso is self-inverse and makes the J2 node rate equal "
               "the solar rate; the Lambert velocities satisfy the f-g arrival relations with the universal-variable Lagrange coefficients whenever F(z) = 0, the returned "
-              "state (r0, v0) solves Kepler's universal equation for the requested time with z = alpha chi^2 (all four direction/way cases), and the Newton "
-              "loop breaks only on convergence; beta is in [-pi/2, pi/2] and is the elevation above the orbit plane; S is the unit incoming-asymptote direction, (S,T,R) "
+              "state (r0, v0) solves Kepler's universal equation for the requested time with z = alpha chi^2 (all four direction/way cases), the bracketed Newton "
+              "loop breaks only when its last step (Newton or bisection) is below the tolerance and its iterates never leave the bracket found by the scan; beta is in [-pi/2, pi/2] and is the elevation above the orbit plane; S is the unit incoming-asymptote direction, (S,T,R) "
               "orthonormal, B perpendicular to S and h with |B| = |a| sqrt(e^2-1).")
-LEVEL_NOTE = ("R -> double gap covered only by tolerance-bounded correspondence (this gap is exactly where the two open findings live: NaN from a Newton overshoot, NaN from "
-              "arcsin(1+ulp)); existence of the Lambert root, convergence of scan + Newton, and 'the universal-variable f-g map is the two-body flow' are not proved; "
+LEVEL_NOTE = ("R -> double gap covered only by tolerance-bounded correspondence (this gap is where the two findings, now fixed in /repo, lived: NaN from a Newton overshoot "
+              "- 5cfb34d, NaN from arcsin(1+ulp) - 1d112fc; their oracle families stay alive); existence of the Lambert root, convergence of scan + Newton, and 'the universal-variable f-g map is the two-body flow' are not proved; "
               "Lean kernel + propext/Classical.choice/Quot.sound; py2lean translator and harness trusted")
 TECHNIQUE = "Lean 4 proof (ring / field_simp / floor arithmetic / induction on loop fuel) over formulas regenerated from the Python AST; differential correspondence for loops and vector code"
 TRUSTED = [
     "harness/py2lean.py + fn_def/Tr19 in harness/props/C19.py: translate the function bodies of lambert.py (_C,_S,_y,_F,_dF, A and f/g/gdot slices of _lambert), leo.py (three return expressions of sso), "
     "j2.py (com, dOmega), statevector.py (Infos.n), ltan.py (raan2ltan, ltan2raan), constellation.py (raan, nu of both classes) into Generated/{LambertFn,LeoFn,LtanFn,WalkerFn}{F,R}.lean on every run",
     "lean/templates/Mission.tpl (hand-written: 3-vector algebra, dtheta selection, scan and Newton loops, v0/v1 assembly, Walker generator loops, beta, bplane), tied by the correspondence run",
-    "numpy / libm double arithmetic vs R: tolerance 1e-9 relative (1e-7 on Lambert velocities after Newton), Walker fleets bit-exact",
+    "numpy / libm double arithmetic vs R: tolerance 1e-9 relative (1e-7 (1 + 0.01/dE^2) on Lambert velocities after the iteration, whose exit criterion is an absolute 1e-8 in z = dE^2), Walker fleets bit-exact",
 ]
 ASSUMPTIONS = [
     "theorems are over R; the implementation computes in IEEE doubles",
@@ -601,7 +605,9 @@ def correspondence(ctx):
             if fin and m[7] != 1.0:
                 out.fail("model-lambert-solve", "model Newton loop did not leave through `break` although the code returned finite velocities", inp, observed=real, expected=m)
                 return
-            _cmp(out, "model-lambert-solve", "_lambert velocities differ from the model", inp, real, m[:6], rtol=1e-7, scales=[spd] * 6)
+            # the loop stops once a step is < 1e-8 in z (a bisection step leaves an error of that order): for tiny arcs
+            # (root z = dE^2 << 1) two double-precision runs taking different Newton/bisection paths differ by ~1e-8/z relative
+            _cmp(out, "model-lambert-solve", "_lambert velocities differ from the model", inp, real, m[:6], rtol=1e-7 * (1 + 0.01 / inp["dE"] ** 2), scales=[spd] * 6)
             out.sample({"request": "lambert", "input": {k: inp[k] for k in ("a", "e", "dnu", "tof", "prograde")}, "impl": real, "model": m}, limit=2)
         add(" ".join(["lambert", "1" if pro else "0"] + [f2b(x) for x in list(r0) + list(r1) + [c["tof"], mu]]), chk)
     # 3. sun-synchronous solver and J2 node rate
@@ -648,19 +654,28 @@ def correspondence(ctx):
             out.count(key=(cls.__name__, t, p, f, raan0), kind="walker-" + cls.__name__, divides=t % p == 0)
             add(" ".join(["walker", "1" if cls is WalkerDelta else "0", str(t), str(p), str(f), f2b(raan0)]),
                 lambda rep, real=real, inp=inp: _cmp(out, "model-walker", "iter_fleet differs from the model (bit-exact comparison)", inp, real, _floats(rep), exact=True))
-    # 6. beta
-    for _ in range(ctx.n(200, 10000)):
+    # 6. beta (incl. bodies on the orbit normal, where the clip acts)
+    for k in range(ctx.n(200, 10000)):
         date = gen_date(rng)
         el = lambda: [rng.uniform(6.7e6, 4.3e7), rng.uniform(0, 0.6), rng.uniform(0, math.pi), rng.uniform(0, TWO_PI), rng.uniform(0, TWO_PI), rng.uniform(0, TWO_PI)]
         orb = Orbit(el(), date, "keplerian", "EME2000", "Kepler")
-        ref = Orbit(el(), date, "keplerian", "EME2000", "Kepler")
         cart = [float(x) for x in orb.copy(form="cartesian")]
+        normal = k % 5 == 4
+        if normal:
+            w = np.cross(cart[:3], cart[3:])
+            wh = w / np.linalg.norm(w)
+            pvec = rng.choice([1.0, -1.0]) * wh * rng.uniform(7e6, 1e9)
+            t = np.cross(wh, [0.3, -0.5, 0.8])
+            t /= np.linalg.norm(t)
+            ref = Orbit(list(pvec) + list(t * math.sqrt(MU_E / np.linalg.norm(pvec))), date, "cartesian", "EME2000", "Kepler")
+        else:
+            ref = Orbit(el(), date, "keplerian", "EME2000", "Kepler")
         pos = [float(x) for x in ref.copy(form="cartesian")[:3]]
         real = [beta(orb, ref)]
         inp = {"orbit": cart, "ref_pos": pos}
-        out.count(key=("beta", tuple(cart)), kind="beta")
+        out.count(key=("beta", tuple(cart)), kind="beta-normal" if normal else "beta")
         add(" ".join(["beta"] + [f2b(x) for x in cart + pos]),
-            lambda rep, real=real, inp=inp: _cmp(out, "model-beta", "beta differs from the model", inp, real, _floats(rep), rtol=1e-9, atol=1e-8))
+            lambda rep, real=real, inp=inp, normal=normal: _cmp(out, "model-beta", "beta differs from the model", inp, real, _floats(rep), rtol=1e-9, atol=1e-7 if normal else 1e-8))
     # 7. B-plane
     for _ in range(ctx.n(200, 10000)):
         e = rng.choice([rng.uniform(1.05, 2.0), rng.uniform(2.0, 10.0)])
